@@ -12,6 +12,7 @@ import subprocess
 import common
 import ladder
 import pipeline
+import regen
 from common import Check, WORK
 
 SPEC = {
@@ -130,6 +131,14 @@ def run(prop):
     chk.obligation("build:sccmodel", "build", okm, outm[-400:])
     proofs_ok = True
     plog = ""
+    if prop in regen.TABLE_THEOREMS:
+        # translator tie: the tables of the pass (match arms on enum variants) are re-extracted from the working
+        # tree and the model is proved to BE them (lean/Scc/Props/Tables.lean); no test input needed
+        _, terr = regen.regen(["tables"])
+        chk.obligation("regen:tables", "translator", not terr, str(terr)[:400])
+        okt, _, outt = common.prove(chk, prop, regen.TABLE_MODULES, regen.TABLE_THEOREMS[prop])
+        proofs_ok = proofs_ok and okt and not terr
+        plog += str(terr or "") + outt[-1500:]
     for o in obl:
         okp, _, out = common.prove(chk, prop, o["modules"], o["theorems"], role=o.get("role", "theorem"))
         proofs_ok = proofs_ok and okp
